@@ -146,6 +146,73 @@ def check_misses(ctx, inst, rng, case):
             ctx.violation(f"miss-raises-{type(e).__name__}", f"hasattr({cls.__name__}, {name!r}) raised {e!r}", c)
 
 
+def all_nested(inst):
+    """Every aggregate below inst: through sub-aggregate links AND list membership."""
+    from ofxtools.models.base import Aggregate
+
+    out, stack = [], [inst]
+    while stack:
+        cur = stack.pop()
+        kids = [stored(cur, k) for k, t in ref_decl.decl(type(cur)).items() if ref_decl.kind_of(t) == "sub"] + list(list.__iter__(cur))
+        for v in kids:
+            if isinstance(v, Aggregate):
+                out.append(v)
+                stack.append(v)
+    return out
+
+
+def shared_reads(ctx, inst, case, nthreads=4, rounds=20):
+    """One instance shared by several threads that read the same names through it at the same time (a model handed to worker
+    threads is read-only use): every thread gets what the single-threaded read gives."""
+    import sys
+    import threading
+
+    cls = type(inst)
+    desc = descendants(inst)
+    names = []
+    for name in sorted(universe(cls)):
+        definers = [d for d in desc if hasattr(type(d), name)]
+        if hasattr(cls, name) or len(definers) != 1 or name not in ref_decl.decl(type(definers[0])):
+            continue
+        try:
+            names.append((name, getattr(inst, name)))
+        except Exception:  # noqa: judged by check_flat
+            continue
+    names = names[:12]
+    if not names:
+        return
+    bad = []
+    barrier = threading.Barrier(nthreads)
+
+    def worker():
+        barrier.wait()
+        for _ in range(rounds):
+            for name, want in names:
+                try:
+                    got = getattr(inst, name)
+                    if got is not want:
+                        bad.append((name, "other-object", repr(got)[:80]))
+                    if not hasattr(inst, name):
+                        bad.append((name, "hasattr-false", ""))
+                except Exception as e:  # noqa
+                    bad.append((name, type(e).__name__, str(e)[:80]))
+
+    old = sys.getswitchinterval()
+    sys.setswitchinterval(1e-6)
+    try:
+        ths = [threading.Thread(target=worker) for _ in range(nthreads)]
+        for t in ths:
+            t.start()
+        for t in ths:
+            t.join(60)
+    finally:
+        sys.setswitchinterval(old)
+    ctx.ev()
+    ctx.count("shared_instance_reads", nthreads * rounds * len(names))
+    if bad:
+        ctx.violation(f"flat-access/shared-between-threads/{bad[0][1]}", f"{cls.__name__}: {len(bad)} of {nthreads * rounds * len(names) * 2} concurrent reads went wrong, e.g. {bad[0]}", dict(case, threads=True))
+
+
 def check_list_names(ctx, inst, case):
     """The names under which a class declares its REPEATED children: the members live in the list, nothing is stored under
     these names.  Whatever reading such a name gives, hasattr() and getattr() with a default must answer instead of raising."""
@@ -285,8 +352,8 @@ def check_shortcuts(ctx, inst, case):
              "STMTTRNRS": {"statement": "stmtrs"}, "CCSTMTTRNRS": {"statement": "ccstmtrs"}, "INVSTMTTRNRS": {"statement": "invstmtrs"},
              "STMTENDTRNRS": {"statement": "stmtendrs"}, "CCSTMTENDTRNRS": {"statement": "ccstmtendrs"}, "PROFTRNRS": {"profile": "profrs"}}
     for short, attr in table.get(name, {}).items():
-        if hasattr(type(inst), short):
-            judge(ctx, f"{name}.{short}", lambda s=short: getattr(inst, s), stored(inst, attr), case)
+        # judged whether or not the class has it: a wrapper without its shortcut is a missing shortcut, not a case to skip
+        judge(ctx, f"{name}.{short}", lambda s=short: getattr(inst, s), stored(inst, attr), case)
     if name == "SONRS" and stored(inst, "fi") is not None:
         fi = stored(inst, "fi")
         judge(ctx, "SONRS.org", lambda: inst.org, stored(fi, "org"), case)
@@ -402,6 +469,10 @@ def run_shard(ctx):
                 continue
             case = {"cls": name, "seedstr": seedstr, "msgset": True, "force": force, "profile": "max" if r % 2 == 0 else "random"}
             check_shortcuts_pure(ctx, inst, case)
+            if r < 2:
+                # the statements (and the sign-on) inside, each shared by four reader threads
+                for sub in [x for x in all_nested(inst) if type(x).__name__ in ("STMTRS", "CCSTMTRS", "INVSTMTRS", "STMTTRNRS", "SONRS", "SONRQ", "STMTTRNRQ")][:3]:
+                    shared_reads(ctx, sub, dict(case, shared=type(sub).__name__))
             if r < 2:
                 check_copies(ctx, inst, case)
             ctx.distinct((name, seedstr))
